@@ -1038,6 +1038,9 @@ func parse_process_loop(tokens []*Token, index int) (AstProcessStatement, int, e
 
 func parse_process_expression(tokens []*Token, index int) (AstProcessExpression, int, error) {
 	exprTokens, next_index := getProcessExpressionTokens(tokens, index)
+	if len(exprTokens) == 0 {
+		return nil, index, NewParseError(tokens[index], "Unexpected token. Expected an expression")
+	}
 	expr, fail_index, err := parse_expr_pratt(exprTokens, 0, 0)
 	if err != nil {
 		return nil, index + fail_index, err
@@ -1046,6 +1049,10 @@ func parse_process_expression(tokens []*Token, index int) (AstProcessExpression,
 }
 
 func parse_expr_pratt(tokens []*Token, index int, minPrecedence int) (AstProcessExpression, int, error) {
+	if index >= len(tokens) {
+		// the expression ended where an operand was expected
+		return nil, index, NewParseError(tokens[len(tokens)-1], "Unexpected end of expression. Expected string, number, variable, or unary operator")
+	}
 	token_index := index + 1
 	var lhs AstProcessExpression
 	if tokens[index].TokenType == STRING {
@@ -1067,8 +1074,8 @@ func parse_expr_pratt(tokens []*Token, index int, minPrecedence int) (AstProcess
 		if err != nil {
 			return nil, next_index, err
 		}
-		if tokens[next_index].TokenType != CLOSEPAREN {
-			return nil, next_index, err
+		if next_index >= len(tokens) || tokens[next_index].TokenType != CLOSEPAREN {
+			return nil, next_index, NewParseError(tokens[len(tokens)-1], "Unexpected end of expression. Expected ')'")
 		}
 		token_index = next_index + 1
 		lhs = subexpr
